@@ -118,3 +118,13 @@ package converters
 //@   loop 2 invariant 8 <= bufFilled && bufFilled <= 15 && bytesWritten == ncalls("invoke.Write") && 7*bytesWritten + bufFilled == 8*(at_loop(1, rangeindex)+2) && fits(buf, bufFilled)
 //@   loop 2 decreases bufFilled
 //@   ensures implies(isnil(result1), result0 == ncalls("invoke.Write") && result0 >= 1 && 7*result0 >= 8*len(data) && 7*result0 - 8*len(data) <= 7)
+
+// readString reads the whole string: the bytes are fetched with io.ReadFull (a plain Read may return fewer bytes than
+// asked for, e.g. at the end of the reader's buffer, without an error), into a buffer of exactly the announced length,
+// and the reported size is the length prefix plus that length.
+//@ log io.ReadFull
+//@ func readString
+//@   nosafety
+//@   noframe
+//@   ensures whole: implies(isnil(result2), ncalls("io.ReadFull") == 1)
+//@   assert before call io.ReadFull#1: exact: len(arg1) == int(resultof("readVarInt#1", 0))
